@@ -57,6 +57,7 @@ class Ref:
         self.invalid_errors = []  # coercion failures that are NOT the exemption: validation should have rejected them
         self.var_has_default = {}
         self.merge_conflicts = []  # groups executed although their fields differ in name or arguments
+        self.type_at = {}          # response path (tuple) -> name of the object type executed there
 
     # -- operation selection
     def get_operation(self):
@@ -389,6 +390,7 @@ def _install_execution(cls):
 
     def exec_selection_set(self, selection_sets, obj_type, obj_value, path):
         result = {}
+        self.type_at[tuple(path)] = obj_type.name
         for key, fields in self.collect(obj_type, selection_sets).items():
             fname = fields[0].name.value
             if len(fields) > 1:
